@@ -17,7 +17,7 @@ let run (prop : ostring) (inp : Sx.t) (obs : Sx.t) : outcome =
 
 (* what each property's predicate reads of an event record (cbs wire closed snd tgt shape tosend stopped hb inbuf):
    Session/Spec.v, fields ob_* used by cXX_scan *)
-let project (prop : ostring) (obs : Sx.t) : Sx.t =
+let project (prop : ostring) (_inp : Sx.t) (obs : Sx.t) : Sx.t =
   let keep_cb names = function
     | Sx.L (Sx.A n :: _) -> List.mem n names
     | Sx.A n -> List.mem n names
